@@ -516,7 +516,11 @@ pub fn getter_level(b: &mut Bat, kind: u32, bi: &BootInformation, rbase: *const 
 
 /// Feed a record list into the transcript of the current leaf.
 pub fn feed(ctx: &mut Ctx, recs: &[Rec]) {
+    let uniform = ctx.uniform();
     for r in recs {
+        if uniform && r.name.contains("Debug") {
+            continue; // Debug text may contain decimal addresses
+        }
         ctx.tx.str(r.name);
         match &r.val {
             Val::U(v) => ctx.ob(r.name, *v),
